@@ -51,7 +51,7 @@ def _same(a, b):
     return None
 
 
-def tiled_elementwise(ctx, name, specs, marks, small=None, small_marks=None):
+def tiled_elementwise(ctx, name, specs, marks, small=None, small_marks=None, harvest=None):
     """specs: {label: (make_base, call)}; make_base() -> tuple of 1-d arrays of length PERIOD (the varying arguments);
     call(*arrays) -> array or tuple of arrays with one row per input element.  Labels for which ``small(label)`` is
     true run at ``small_marks`` instead of ``marks`` (slow code, or more of the same code path)."""
@@ -88,9 +88,16 @@ def tiled_elementwise(ctx, name, specs, marks, small=None, small_marks=None):
         rec.ok(case, outcome="tiled:%s" % label, nontrivial=True, calls=2)
 
     units = [(label, n) for label in specs for n in lengths_for(small_marks if (small and small(label)) else marks)]
+    hblocks = []
+    if harvest is not None:
+        # ... plus lengths derived from the integer constants of the code under test (harvest = (modules, c-directories))
+        hl, hblocks = harvest_lengths(harvest[0], harvest[1], cap=6)
+        units += [(label, n + d) for label in specs if not (small and small(label)) for n in hl if 1000 <= n <= 8000000 for d in (0, PERIOD + 1)
+                  if (label, n + d) not in units]
+        ctx.notes.append("%s: integer constants harvested from the code under test: %r" % (name, hblocks))
     units.sort(key=lambda u: -u[1])
     return ctx.lattice(name, units, one, bounds=dict(functions=sorted(specs), marks=list(marks), period=PERIOD,
-                                                       small_marks=list(small_marks or ()),
+                                                       small_marks=list(small_marks or ()), harvested_constants=hblocks,
                                                        functions_at_small_marks=sorted(l for l in specs if small and small(l)),
                                                        lengths="mark, mark+1, mark+period+1"))
 
